@@ -327,6 +327,144 @@ def check_case(case, R, tag, impl, lines, mod):
     R.d['traces_validated_against_impl'] += 1
 
 
+# ----------------------------------------------------------- histories
+# The integrator caches `_has_dt_adapt` on its first call; later calls must
+# still give the documented value for the *current* particles (inlets add
+# particles to arrays that start out empty, outlets empty them).
+
+def gen_history(rng):
+    base = gen_case(rng)
+    base['fixed_h'] = False
+    base['h_scale_after_fix'] = 1.0
+    steps = [base['arrays']]
+    for k in range(rng.choice([1, 2, 3])):
+        nxt = []
+        for a in steps[-1]:
+            n = rng.choice([0, 1, 2, 3, 5])
+            if rng.random() < 0.3:
+                n = len(a['tag'])
+            nghost = min(n, rng.choice([0, 0, 1]))
+            b = {'name': a['name'], 'tag': [0] * (n - nghost) + [2] * nghost,
+                 'h': [10 ** rng.uniform(-3, 1.5) for _ in range(n)],
+                 'props': {}}
+            for c in a['props']:
+                if c == 'dt_adapt':
+                    b['props'][c] = [10 ** rng.uniform(-6, 0) for _ in range(n)]
+                else:
+                    b['props'][c] = [rng.choice([0.0, 10 ** rng.uniform(-4, 4)])
+                                     for _ in range(n)]
+            nxt.append(b)
+        steps.append(nxt)
+    if rng.random() < 0.5:
+        # the interesting start: arrays carrying dt_adapt begin empty
+        for a in steps[0]:
+            if 'dt_adapt' in a['props']:
+                a['tag'] = []
+                a['h'] = []
+                a['props'] = {c: [] for c in a['props']}
+    base['steps'] = steps
+    return base
+
+
+def reload(pa, a):
+    n0 = pa.get_number_of_particles()
+    if n0:
+        pa.remove_particles(list(range(n0)))
+    n = len(a['tag'])
+    if n:
+        kw = dict(x=np.arange(n, dtype=float), h=np.array(a['h']),
+                  tag=np.array(a['tag'], dtype=np.int32))
+        for k, v in a['props'].items():
+            kw[k] = np.array(v)
+        pa.add_particles(**kw)
+    pa.align_particles()
+
+
+def run_history(hc):
+    pas = build({'arrays': hc['steps'][0]})
+    integ = Integrator()
+    integ.set_acceleration_evals(_AEval(pas))
+    integ.set_fixed_h(False)
+    s = Solver.__new__(Solver)
+    s.adaptive_timestep = True
+    s.integrator = integ
+    s.cfl = hc['cfl']
+    s.in_parallel = False
+    s.dt = hc['dt']
+    s._damping_factor = hc['damping']
+    und = hc['dt'] / hc['damping']
+    outs = []
+
+    def conv(r):
+        if r is None:
+            return 'none'
+        r = float(r)
+        return 'inf' if math.isinf(r) else ('val', r)
+    for k, arrs in enumerate(hc['steps']):
+        if k > 0:
+            for pa, a in zip(pas, arrs):
+                reload(pa, a)
+        for pa in pas:
+            pa.update_min_max()
+        out = {'fixed_cached': None}
+        out['h_now'] = [list(map(float, pa.get('h', only_real_particles=False)))
+                        for pa in pas]
+        try:
+            out['cts'] = conv(integ.compute_time_step(und, hc['cfl']))
+        except Exception as e:      # noqa
+            out['cts'] = ('raise', type(e).__name__)
+        try:
+            out['sol'] = conv(s._compute_timestep())
+        except Exception as e:      # noqa
+            out['sol'] = ('raise', type(e).__name__)
+        out['hmin'] = 'none'
+        out['real'] = [{c: list(map(float, pa.get(c))) for c in
+                        CRIT + ('dt_adapt',) if c in pa.properties} for pa in pas]
+        outs.append(out)
+    return outs
+
+
+def check_histories(hcases, R):
+    lines = []
+    meta = []
+    for hc in hcases:
+        outs = run_history(hc)
+        flag0 = any('dt_adapt' in a['props'] for a in hc['steps'][0])
+        for k, (arrs, im) in enumerate(zip(hc['steps'], outs)):
+            step_case = dict(hc, arrays=arrs)
+            ls = model_lines(step_case, im)[:2]
+            fl = '-' if k == 0 else ('1' if flag0 else '0')
+            ls = [ln.replace(' fixed=', ' flag=%s fixed=' % fl, 1) for ln in ls]
+            lines += ls
+            meta.append((hc, k, step_case, im, ls))
+    out = H.run_model('C19', lines)
+    if len(out) != len(lines):
+        raise SystemExit('model driver answered %d lines for %d' % (len(out), len(lines)))
+    for j, (hc, k, step_case, im, ls) in enumerate(meta):
+        mod = out[2 * j:2 * j + 2]
+        got = [canon(im['cts']), canon(im['sol'])]
+        case = {'history': hc, 'step': k}
+        for ln, m, g, nm in zip(ls, mod, got, ('cts', 'sol')):
+            if m != g:
+                R.disagree({'case': case, 'line': ln}, m, g, 'history step %d %s' % (k, nm))
+        exp, why = oracle(step_case, im)
+        cts = im['cts']
+        key = 'C19:history:' + ('first-call' if k == 0 else 'later-call')
+        if exp == 'skip' or isinstance(exp, tuple):
+            R.count('history-oracle-skip')
+        elif exp is None:
+            if cts != 'none':
+                R.prop_fail(key, case, 'no criterion applies: None', repr(cts))
+        elif not (isinstance(cts, tuple) and cts[0] == 'val' and rel_eq(cts[1], exp)):
+            R.prop_fail(key, case, '%s = %r at step %d of the history' % (why, exp, k), repr(cts))
+        elif im['sol'] != cts:
+            R.prop_fail('C19:solver-uses-integrator-value', case, repr(cts), repr(im['sol']))
+        R.count('history-step')
+        R.case('H' + json.dumps(case, sort_keys=True), k > 0 and sum(len(a['tag']) for a in step_case['arrays']) > 0,
+               None)
+        R.d['traces_validated_against_impl'] += 1
+
+
 def corpus():
     """minimised past failures; always run first"""
     one = lambda h, props, tag=None: {'name': 'a', 'tag': tag or [0] * len(h),  # noqa
@@ -358,7 +496,10 @@ def main():
     if a.replay:
         rp = json.load(open(a.replay))
         case = rp['case']
-        check_cases([case], R, 0)
+        if 'history' in case:
+            check_histories([case['history']], R)
+        else:
+            check_cases([case], R, 0)
         print(json.dumps(R.d['property_failures'], indent=1))
         sys.exit(1 if R.d['property_failures'] else 0)
     rng = random.Random(a.seed * 7919 + 19)
@@ -366,6 +507,7 @@ def main():
     check_cases(corpus(), R, 99)
     R.count('corpus', len(corpus()))
     check_cases([gen_case(rng, big=(a.tier != 'quick')) for i in range(n)], R, 0)
+    check_histories([gen_history(rng) for i in range(n // 4)], R)
     if a.broken or R.d['disagreements']:
         # failing-input search on the real code: the oracle above already ran
         # on every case; widen it.
